@@ -307,6 +307,12 @@ def decodeWalk (keyRemote : Bool) : Bool → List Attr → Dec
   | afterIntegrity, .useCandidate :: rest => decodeWalk keyRemote afterIntegrity rest
   | afterIntegrity, .priority _ :: rest => decodeWalk keyRemote afterIntegrity rest
 
+/-- attributes that cannot make `decode` fail when they sit behind a verified MESSAGE-INTEGRITY -/
+def Attr.harmless : Attr → Bool
+  | .fingerprint false => false
+  | .overrun => false
+  | _ => true
+
 /-- Which USE-CANDIDATE / PRIORITY attributes of the trailer does a successful `decode` actually parse?  Exactly those in front
 of the first MESSAGE-INTEGRITY: behind it "only FINGERPRINT is allowed" and every other attribute is skipped unparsed (it is
 not covered by the HMAC); at a FINGERPRINT parsing stops. -/
@@ -550,5 +556,86 @@ def honestNet (aControlling : Bool) (component addrA addrB : Nat) : Net :=
   let b0 := (run (init (!aControlling) component) [.setRemoteCreds, .addRemote addrA (localPriority component)]).1
   let n0 : Net := { a := a0, b := b0, addrA := addrA, addrB := addrB }
   (n0.opA .connect).opB .connect
+
+/-! ### schedules with loss of first transmissions and retransmission (for the liveness statements) -/
+
+
+/-- transaction ids of the checks an agent has outstanding -/
+def outstanding (s : St) : List Nat := s.pairs.filterMap (·.tx)
+
+/-- which FIRST transmissions are still to be lost: the first Binding request sent by A, by B, the first response sent by A, by B -/
+structure Loss where
+  reqA : Bool
+  reqB : Bool
+  rspA : Bool
+  rspB : Bool
+  deriving DecidableEq, Repr
+
+def isRequest (d : Datagram) : Bool := match d.kind with | .stun m => m.cls == .request | _ => false
+def isResponse (d : Datagram) : Bool := match d.kind with | .stun m => m.cls == .response | _ => false
+
+/-- the oldest datagram travelling to B (sent by A) arrives, unless it is a first transmission marked to be lost -/
+def Net.passToB (n : Net) (l : Loss) : Net × Loss :=
+  match n.toB with
+  | [] => (n, l)
+  | d :: rest =>
+    let n1 := { n with toB := rest }
+    if isRequest d && l.reqA then (n1, { l with reqA := false })
+    else if isResponse d && l.rspA then (n1, { l with rspA := false })
+    else (n1.opB (.dgram d), l)
+
+def Net.passToA (n : Net) (l : Loss) : Net × Loss :=
+  match n.toA with
+  | [] => (n, l)
+  | d :: rest =>
+    let n1 := { n with toA := rest }
+    if isRequest d && l.reqB then (n1, { l with reqB := false })
+    else if isResponse d && l.rspB then (n1, { l with rspB := false })
+    else (n1.opA (.dgram d), l)
+
+/-- everything in flight is passed on (alternating directions) until nothing is in flight any more (`fuel` bounds the loop) -/
+def Net.flush : Nat → Net × Loss → Net × Loss
+  | 0, x => x
+  | k + 1, x =>
+    let x1 := x.1.passToB x.2
+    let x2 := x1.1.passToA x1.2
+    if x2.1.toA.isEmpty && x2.1.toB.isEmpty then x2 else Net.flush k x2
+
+/-- all retransmission timers of both agents fire once -/
+def Net.rtxAll (n : Net) : Net :=
+  let n1 := (outstanding n.a).foldl (fun n t => n.opA (.retransmit t)) n
+  (outstanding n1.b).foldl (fun n t => n.opB (.retransmit t)) n1
+
+/-- one period of real time: what is in flight is passed on, the 500 ms check timers tick, the answers are passed on, the
+retransmission timers fire -/
+def Net.period (x : Net × Loss) : Net × Loss :=
+  let x1 := Net.flush 12 x
+  let n2 := (x1.1.opA .tick).opB .tick
+  let x3 := Net.flush 12 (n2, x1.2)
+  (x3.1.rtxAll, x3.2)
+
+def Net.periods : Nat → Net × Loss → Net × Loss
+  | 0, x => x
+  | k + 1, x => Net.periods k (Net.period x)
+
+/-- Two agents with exchanged credentials. Each is told the other's real host candidate and, optionally, one more candidate
+of the other side that is unreachable (address 7 resp. 9, same priority), before or after the real one. -/
+def lossyStart (aControlling bFirst gap deadA deadB deadFirst : Bool) (component : Nat) : Net :=
+  let pr := localPriority component
+  let candsA : List Op := if deadA then (if deadFirst then [.addRemote 7 pr, .addRemote 2 pr] else [.addRemote 2 pr, .addRemote 7 pr]) else [.addRemote 2 pr]
+  let candsB : List Op := if deadB then (if deadFirst then [.addRemote 9 pr, .addRemote 1 pr] else [.addRemote 1 pr, .addRemote 9 pr]) else [.addRemote 1 pr]
+  let a0 := (run (init aControlling component) (.setRemoteCreds :: candsA)).1
+  let b0 := (run (init (!aControlling) component) (.setRemoteCreds :: candsB)).1
+  let n0 : Net := { a := a0, b := b0, addrA := 1, addrB := 2 }
+  if bFirst then
+    let n1 := n0.opB .connect
+    let n2 := if gap then (Net.flush 12 (n1, ⟨false, false, false, false⟩)).1 else n1
+    n2.opA .connect
+  else
+    let n1 := n0.opA .connect
+    let n2 := if gap then (Net.flush 12 (n1, ⟨false, false, false, false⟩)).1 else n1
+    n2.opB .connect
+
+def bothConnected (n : Net) : Bool := n.a.active == some 2 && n.b.active == some 1
 
 end Qx.C15
